@@ -104,6 +104,40 @@ impl<'a> Mon<'a> {
             self.out.add("distinct_positions", 1);
         }
 
+        // a search line that shuffles back and replays the last two recorded moves: taking it back
+        // must leave the game record alone
+        if let Some(h) = case["moves"].as_str() {
+            let rec: Vec<&str> = h.split_ascii_whitespace().collect();
+            if rec.len() >= 2 {
+                let (a, b) = (rec[rec.len() - 2], rec[rec.len() - 1]);
+                let rev = |t: &str| if t.len() == 4 { format!("{}{}", &t[2..4], &t[0..2]) } else { String::new() };
+                let line = [rev(a), rev(b), a.to_string(), b.to_string()];
+                let mut played = vec![];
+                for t in &line {
+                    match eng::find(g, t) {
+                        Some(m) => {
+                            g.push(m);
+                            played.push(m);
+                        }
+                        None => break,
+                    }
+                }
+                let complete = played.len() == 4;
+                while let Some(m) = played.pop() {
+                    g.pop(m);
+                }
+                if complete {
+                    self.out.add("shuffle_lines_replaying_recorded_moves", 1);
+                    let o6 = obs(g);
+                    if o6 != o0 {
+                        self.viol("shuffle-line", &fen6,
+                            format!("playing {} and taking it all back changed the game: {}", line.join(" "), obs_diff(&o0, &o6)), case);
+                        return;
+                    }
+                }
+            }
+        }
+
         // nested play/take-back as a search performs it
         if deep {
             let depth = 2 + rng.below(5); // 2..6
@@ -249,6 +283,7 @@ pub fn run(tier: &str, seed: u64) -> i32 {
     chk.need("king captures undone", agg.c("king_capture_moves_undone"), 10);
     chk.need("special moves undone", agg.c("special_moves_undone"), 100);
     chk.need("nested nodes", agg.c("nested_nodes"), 1000);
+    chk.need("shuffle lines replaying the last recorded moves", agg.c("shuffle_lines_replaying_recorded_moves"), 50);
     finalize(chk, &agg)
 }
 
